@@ -195,6 +195,117 @@ for _e in ("Std::FormatError", "Std::IndexError", "Std::OutOfRangeError", "Std::
            "Std::FileSystemError", "Std::InvalidTimezoneError", "Std::OpenClosureError"):
     RECV[_e] = ['%s("x")' % _e.replace("Std::", "::Std::", 1)]
 
+
+# ------------------------------------------------------------------ collection representation variants
+#
+# The compiler picks the BACKING IMPLEMENTATION of a collection literal from its static element / key type
+# (compiler/bytecode_compiler.go compileHashMapLiteralNode, compileHashRecordLiteralNode, compileHashSetLiteralNode,
+# compileArrayListLiteralNode, compileArrayTupleLiteralNode): String, Symbol, Char, Float, Float64/32, every sized int, Date and Time
+# select NativeHashMap[K, V] / NativeKeyHashMap[K] / NativeHashRecord / NativeKeyHashRecord / NativeHashSet[T] / NativeArrayList[T] /
+# NativeArrayTuple[T] (for String/Symbol/Char/Float keys the value type selects NativeHashMap[K, V] vs NativeKeyHashMap[K]); an untyped
+# empty literal has element type `never` and is specialised as well; everything else (Int, unions, bool, nil ...) is backed by
+# HashMapOfValue / HashRecordOfValue / HashSetOfValue / ArrayListOfValue / ArrayTupleOfValue.  A variant is a literal given to a local
+# DECLARED with the full generic type (`var m: Std::HashMap[Std::Int, Std::String] = {}`), so that the declared type - not the elements -
+# decides the representation, also for the EMPTY state.
+# element type -> (type text, three member values, one further value, specialised?)
+ELT = {
+    "Int": ("Std::Int", ["1", "2", "3"], "99", False),
+    "IntOrString": ("Std::Int | Std::String", ["1", '"b"', "3"], "99", False),
+    "Bool": ("Std::Bool", ["true", "false", "true"], "false", False),
+    "String": ("Std::String", ['"a"', '"b"', '"c"'], '"zz"', True),
+    "Symbol": ("Std::Symbol", [":a", ":b", ":c"], ":zz", True),
+    "Char": ("Std::Char", ["`a`", "`b`", "`c`"], "`z`", True),
+    "Float": ("Std::Float", ["1.5", "2.5", "3.5"], "9.5", True),
+    "Float64": ("Std::Float64", ["1.5f64", "2.5f64", "3.5f64"], "9.5f64", True),
+    "Int8": ("Std::Int8", ["1i8", "2i8", "3i8"], "99i8", True),
+    "UInt8": ("Std::UInt8", ["1u8", "2u8", "3u8"], "99u8", True),
+    "Int64": ("Std::Int64", ["1i64", "2i64", "3i64"], "99i64", True),
+    "UInt": ("Std::UInt", ["1u", "2u", "3u"], "99u", True),
+    "Date": ("Std::Date", ["Date(2024, 1, 1)", "Date(2024, 1, 2)", "Date(2024, 1, 3)"], "Date(1999, 1, 1)", True),
+}
+# value types for which a String/Symbol/Char/Float-keyed map gets the fully native NativeHashMap[K, V]
+NATIVE_VAL = {"String", "Symbol", "Char", "Float", "Float64", "Int8", "UInt8", "Int64", "UInt", "Bool", "Date"}
+NATIVE_KV_KEYS = {"String", "Symbol", "Char", "Float"}
+# (key, value) element types of the map / record variants: the first value-backed and the first native pair are the core ones
+MAP_ELTS = [("Int", "Int"), ("String", "Int"), ("Int", "String"), ("IntOrString", "Int"), ("Bool", "Int"), ("String", "String"),
+            ("Symbol", "Int"), ("Symbol", "Float"), ("Char", "Bool"), ("Float", "Float"), ("Int8", "Int"), ("Int64", "String"),
+            ("UInt8", "Int"), ("Date", "Int")]
+SEQ_ELTS = ["Int", "String", "IntOrString", "Bool", "Symbol", "Char", "Float", "Float64", "Int8", "UInt8", "Int64", "UInt", "Date"]
+COLL = {"Std::HashMap": ("{", "}", True, True), "Std::HashRecord": ("%{", "}", True, False), "Std::HashSet": ("^[", "]", False, True),
+        "Std::ArrayList": ("[", "]", False, True), "Std::ArrayTuple": ("%[", "]", False, False)}
+# collection classes that are passed as arguments of `any` parameters of a collection receiver (the class itself and its sibling kinds)
+FAMILY = {"Std::HashMap": ["Std::HashMap", "Std::HashRecord"], "Std::HashRecord": ["Std::HashRecord", "Std::HashMap"],
+          "Std::ArrayList": ["Std::ArrayList", "Std::ArrayTuple"], "Std::ArrayTuple": ["Std::ArrayTuple", "Std::ArrayList"],
+          "Std::HashSet": ["Std::HashSet", "Std::ArrayList"]}
+# declared parameter types (not writable in a top-level program: they mention type parameters) that are collection supertypes
+GENERIC_COLL = {"Std::Tuple[V]": "Std::Tuple", "Std::Record[K, V]": "Std::Record", "Std::ImmutableSet[V]": "Std::ImmutableSet"}
+
+
+class Var:
+    """one representation variant of a collection class: literal `expr`, declared type `typ` (None: bare literal), canonical class
+    `tag` = class/backing/state, element values for the class's type parameters, compiler-pool hazard tag `hz`"""
+    __slots__ = ("expr", "typ", "core", "cls", "tag", "elems", "hz")
+
+    def __init__(self, expr, typ, core, cls, tag, elems, hz):
+        self.expr, self.typ, self.core, self.cls, self.tag, self.elems, self.hz = expr, typ, core, cls, tag, elems, hz
+
+    def elem_expr(self, pt, i):
+        vs = self.elems.get(pt)
+        return vs[i % len(vs)] if vs else None
+
+
+def _backing(cls, k, v=None):
+    if not ELT[k][3]:
+        return "value"
+    if v is None:
+        return "native[%s]" % k
+    return ("native[%s,%s]" % (k, v)) if (k in NATIVE_KV_KEYS and v in NATIVE_VAL) else ("nativekey[%s]" % k)
+
+
+def _variants(cls):
+    opn, cls_, ismap, mutable = COLL[cls]
+    out = []
+    elts = MAP_ELTS if ismap else [(e, None) for e in SEQ_ELTS]
+    n_value = n_native = 0
+    for (k, v) in elts:
+        kt, kv, kx, knat = ELT[k]
+        if ismap:
+            vt, vv, vx, _ = ELT[v]
+            typ = "%s[%s, %s]" % (cls, kt, vt)
+            items = ["%s => %s" % (kv[i], vv[i]) for i in range(3)]
+            elems = {"Key": [kv[0], kx, kv[1], kv[2]], "Value": [vv[0], vx, vv[1], vv[2]]}
+        else:
+            typ = "%s[%s]" % (cls, kt)
+            items = list(kv)
+            elems = {"Val": [kv[0], kx, kv[1], kv[2]], "Element": [kv[0], kx, kv[1], kv[2]]}
+        if k == "Bool":
+            items = items[:2]
+        back = _backing(cls, k, v)
+        first = (back == "value" and n_value == 0) or (back != "value" and n_native == 0)
+        if back == "value":
+            n_value += 1
+        else:
+            n_native += 1
+        # the compiler crashes on two static literals of the same native hash-record type in one function (value pool dedup
+        # compares uncomparable structs): such literals are kept apart (one per generated program)
+        hz = ("rec:" + k) if (cls == "Std::HashRecord" and back != "value") else None
+        states = [("empty", "", first), ("single", items[0], first and back == "value"), ("multi", ", ".join(items), first)]
+        for (st, body, core) in states:
+            out.append(Var(opn + body + cls_, typ, core, cls, "%s/%s/%s" % (cls, back, st), elems, hz))
+            if mutable and st != "single":   # spare capacity
+                out.append(Var(opn + body + cls_ + ":8", typ, core and st == "empty" and back == "value", cls,
+                               "%s/%s/%s+capacity" % (cls, back, st), elems, hz))
+    # the untyped empty literal: element type `never`, specialised
+    out.append(Var(opn + cls_, None, False, cls, "%s/native[never]/empty" % cls, {}, None))
+    out.sort(key=lambda x: not x.core)
+    return out
+
+
+VARIANTS = {c: _variants(c) for c in COLL}
+
+for _c in COLL:
+    RECV[_c] = RECV[_c] + VARIANTS[_c]
+
 # classes whose constructor is called but whose instances are not used as receivers (the constructor does not yield an instance)
 INIT_ONLY = {"Std::String::Span"}
 # element type of the receiver (what the type parameters Val / Key / Value / Element stand for)
@@ -273,10 +384,31 @@ def closure_arg(t, ns):
 
 
 class Choice:
-    __slots__ = ("expr", "typ", "core", "cls")
+    __slots__ = ("expr", "typ", "core", "cls", "elem", "var")
 
-    def __init__(self, expr, typ, core, cls):
+    def __init__(self, expr, typ, core, cls, elem=None, var=None):
         self.expr, self.typ, self.core, self.cls = expr, typ, core, cls   # typ: declared type of the local, None = literal form
+        self.elem = elem    # (type parameter name, index): replaced by an element value of the receiver variant
+        self.var = var      # collection variant (well-typed by construction: not sent through the typing pre-pass)
+
+
+def argkey(rtag, avars):
+    """key segment of a call with collection arguments: backing kind of the receiver variant (value / native) and the classes of the
+    collection arguments"""
+    if not avars:
+        return ""
+    back = rtag.split("/")[1] if rtag else "value"     # the hand-written receiver literals all have Int elements / keys
+    return "recv=%s:arg=%s" % ("value" if back == "value" else "native", ",".join(v.cls for v in avars))
+
+
+def variant_choices(classes, core_only=False):
+    out = []
+    for c in classes:
+        for v in VARIANTS.get(c, []):
+            if core_only and not v.core:
+                continue
+            out.append(Choice(v.expr, v.typ, v.core, v.tag, var=v))
+    return out
 
 
 def pool_classes(tset, tab):
@@ -299,7 +431,13 @@ def param_choices(r, p, tab, tier_all):
     ns = r["ns"]
     base = r["name"].split("@")[0]
     if pt in TYPE_PARAMS:
-        return [Choice(e, None, i < 2, "elem") for i, e in enumerate(elem_exprs(ns))]
+        return [Choice(e, None, i < 2, "elem", elem=(pt, i)) for i, e in enumerate(elem_exprs(ns))]
+    if pt in GENERIC_COLL:
+        # a collection supertype: every representation variant of EVERY concrete collection class that belongs to it
+        sup = GENERIC_COLL[pt]
+        xs = variant_choices([c for c in COLL if sup in tab.anc.get(c, [])])
+        if xs:
+            return xs + [Choice(e, None, False, "lit") for e in ARGS.get(pt, [])]
     if pt.startswith("|"):
         c = closure_arg(pt, ns)
         return [Choice(e, None, True, "closure") for e in c] if c else None
@@ -324,6 +462,7 @@ def param_choices(r, p, tab, tier_all):
         for i, e in enumerate(ARGS.get(pt, []) + MIXED):
             if all(e != v[0] for v in vals):
                 vals.append((e, i < 6, "mixed"))
+        fam = variant_choices(FAMILY.get(ns, []), core_only=True)   # `any` parameter of a collection: same and sibling kinds
     else:
         small_only = ns.lstrip("&") not in NUMERIC_RECV or base in SMALL_ONLY_OPS or r["name"] == "#init" and ns not in NUMERIC_RECV
         for c in pool_classes(tset, tab):
@@ -338,7 +477,7 @@ def param_choices(r, p, tab, tier_all):
                 vals.append((e, False, c))
     if not vals:
         return None
-    out = []
+    out = list(fam) if tset == "*" else []
     for (e, core, c) in vals:
         out.append(Choice(e, pt, core, c))
         out.append(Choice(e, None, core, c))
@@ -444,13 +583,13 @@ def gen_calls(tab, rng, thorough, only=None, probes=None, typing=None):
         for p in pos + restp:
             xs = param_choices(r, p, tab, thorough)
             if xs and typing is not None:
-                xs = [c for c in xs if c.typ is None or typing.get((c.typ, c.expr), False)]
+                xs = [c for c in xs if c.typ is None or c.var is not None or typing.get((c.typ, c.expr), False)]
             if not xs:
                 ok = False
                 skip("no-argument-generator")
                 break
             if typing is None:
-                wanted.update((c.typ, c.expr) for c in xs if c.typ is not None)
+                wanted.update((c.typ, c.expr) for c in xs if c.typ is not None and c.var is None)
             choices.append(xs)
         if not ok or typing is None:
             continue
@@ -477,7 +616,11 @@ def gen_calls(tab, rng, thorough, only=None, probes=None, typing=None):
                 lit = [c for c in choices[i] if c.typ is None]
                 per.append((typed, lit))
             if thorough:
-                axes = [recvs] + [choices[i] for i in range(argc)]
+                rc = [x for x in recvs if not isinstance(x, Var) or x.core]
+                for j, x in enumerate(recvs):   # every further representation variant of the receiver once, arguments rotating
+                    if isinstance(x, Var) and not x.core:
+                        plans.append((x, [choices[k][(j + 7 * k) % len(choices[k])] for k in range(argc)]))
+                axes = [rc] + [choices[i] for i in range(argc)]
                 total = 1
                 for a in axes:
                     total *= len(a)
@@ -510,31 +653,71 @@ def gen_calls(tab, rng, thorough, only=None, probes=None, typing=None):
                     elif typed:
                         tl = {c.expr: c for c in typed}
                         pick = [(tl[c.expr] if (c.expr in tl and rng.below(2) == 0) else c) for c in lit if c.core]
+                        pick += [c for c in typed if c.core and c.var is not None]
                     else:
                         pick = [c for c in lit if c.core]
                     cores.append(pick or choices[i][:1])
                 n1 = max([1] + [len(c) for c in cores])
-                roff = rng.below(len(recvs))
+                rcore = [x for x in recvs if not isinstance(x, Var) or x.core]
+                roff = rng.below(len(rcore))
                 offs = [rng.below(len(c)) for c in cores]
                 for j in range(n1):
-                    plans.append((recvs[(j + roff) % len(recvs)], [cores[i][(j + offs[i]) % len(cores[i])] for i in range(argc)]))
-                for j in range(2 if argc else 1):   # seeded picks from the whole catalogue
-                    plans.append((recvs[rng.below(len(recvs))], [choices[i][rng.below(len(choices[i]))] for i in range(argc)]))
+                    plans.append((rcore[(j + roff) % len(rcore)], [cores[i][(j + offs[i]) % len(cores[i])] for i in range(argc)]))
+            # collection receiver x collection argument: the full product of the core representation variants (class x backing x
+            # state) of the receiver with the core variants of every member class of the parameter (thorough: all receiver variants x
+            # core argument variants), the other parameters rotating
+            rv_all = [x for x in recvs if isinstance(x, Var)]
+            for i in range(argc):
+                cv_all = [c for c in choices[i] if c.var is not None]
+                if not cv_all or not rv_all:
+                    continue
+                rv_core, cv_core = [x for x in rv_all if x.core], [c for c in cv_all if c.core]
+                pairs = [(x, c) for x in rv_core for c in cv_core]
+                if thorough:
+                    pairs += [(x, c) for x in rv_all if not x.core for c in cv_core]
+                for j, (x, c) in enumerate(pairs):
+                    if x.hz and c.var.hz == x.hz:   # same native record type twice in one function crashes the compiler: other key type
+                        alt = [d for d in cv_all if d.var.cls == c.var.cls and d.var.hz not in (None, x.hz)
+                               and d.var.tag.split("/")[-1] == c.var.tag.split("/")[-1]]
+                        if alt:
+                            c = alt[0]
+                    plans.append((x, [(c if k == i else choices[k][j % len(choices[k])]) for k in range(argc)]))
             for (recv, cs) in plans:
-                pre, args = [], []
-                for k, c in enumerate(cs):
-                    if c.typ is None:
-                        args.append(c.expr)
+                pre, args, hz, rtag = [], [], [], ""
+                if isinstance(recv, Var):
+                    rtag = recv.tag
+                    if recv.hz:
+                        hz.append(recv.hz)
+                    if recv.typ is not None:
+                        pre.append(("r", recv.typ, recv.expr))
+                        rexpr = "\x00r"
                     else:
-                        pre.append((k, c.typ, c.expr))
+                        rexpr = recv.expr
+                else:
+                    rexpr = recv
+                for k, c in enumerate(cs):
+                    e = c.expr
+                    if c.elem is not None and isinstance(recv, Var):
+                        e = recv.elem_expr(c.elem[0], c.elem[1]) or e
+                    if c.var is not None and c.var.hz:
+                        hz.append(c.var.hz)
+                    if c.typ is None:
+                        args.append(e)
+                    else:
+                        pre.append((k, c.typ, e))
                         args.append("\x00%d" % k)
+                if len(set(hz)) < len(hz):
+                    skip("two-native-record-literals-of-one-type(compiler crash)")
+                    continue
+                recv = rexpr
                 rest_args = [choices[-1][0].expr] * nrest if restp else []
                 e = call_expr(r, recv, args + rest_args)
                 if e is None:
                     skip("no-call-syntax")
                     break
                 calls.append(dict(row=r, expr=e, pre=pre, argc=argc + nrest, void=void, probe=None if void else probe,
-                                  argcls=",".join(c.cls for c in cs)))
+                                  argcls=",".join(c.cls for c in cs), hz=hz, rtag=rtag,
+                                  argkey=argkey(rtag, [c.var for c in cs if c.var is not None])))
     if typing is None:
         return wanted, skipped
     # dedupe identical calls of the same row
@@ -576,8 +759,8 @@ def case_src(c):
     expr = c["expr"]
     lines = ['println("B\\t%s")' % cid, "do"]
     for (k, t, e) in c.get("pre") or []:
-        lines.append("  var a%s_%d: %s = %s" % (cid, k, t, e))
-        expr = expr.replace("\x00%d" % k, "a%s_%d" % (cid, k))
+        lines.append("  var a%s_%s: %s = %s" % (cid, k, t, e))
+        expr = expr.replace("\x00%s" % k, "a%s_%s" % (cid, k))
     for pl in c.get("prelude") or []:
         lines.append("  " + pl)
     if c["void"]:
@@ -610,8 +793,8 @@ def shown(c):
     e = c["expr"]
     pre = []
     for (k, t, v) in c.get("pre") or []:
-        e = e.replace("\x00%d" % k, "a%d" % k)
-        pre.append("var a%d: %s = %s" % (k, t, v))
+        e = e.replace("\x00%s" % k, "a%s" % k)
+        pre.append("var a%s: %s = %s" % (k, t, v))
     pre += list(c.get("prelude") or [])
     return "; ".join(pre + [e])
 
@@ -784,13 +967,14 @@ def stream_calls(ctx, tab, elk, bad_rows, only_keys=None):
                 p = line.split("\t")
                 corpus.append(p[0])
                 if len(p) > 1:
-                    explicit.setdefault(p[0], []).append(p[1])
+                    explicit.setdefault(p[0], []).append((p[1], p[2] if len(p) > 2 else ""))
 
-    def explicit_call(r, text):
+    def explicit_call(r, text_ak):
+        text, ak = text_ak
         parts = [x.strip() for x in text.split(";;")]
         void = (r["retset"] == "void" and r["name"] != "#init")
         return dict(row=r, expr=parts[-1], prelude=parts[:-1], pre=[], argc=-1, void=void,
-                    probe=None if void else probe_for(r, probes), argcls="corpus")
+                    probe=None if void else probe_for(r, probes), argcls="corpus", argkey=ak)
     rowbykey = {r["key"]: r for r in tab.rows}
     byrow = {}
     for c in calls:
@@ -840,7 +1024,21 @@ def stream_calls(ctx, tab, elk, bad_rows, only_keys=None):
     for i, c in enumerate(chosen + conf_list):
         c["id"] = "c%d" % i
     size = 50
-    chunks = [chosen[i:i + size] for i in range(0, len(chosen), size)]
+    # programs of 50 calls; calls that load a static literal of the same native hash-record type never share a program (the compiler
+    # panics on the second one: value-pool deduplication compares uncomparable structs)
+    chunks, chz, fill = [], [], 0
+    for c in chosen:
+        h = set(c.get("hz") or [])
+        k = fill
+        while k < len(chunks) and (len(chunks[k]) >= size or (h & chz[k])):
+            k += 1
+        if k == len(chunks):
+            chunks.append([])
+            chz.append(set())
+        chunks[k].append(c)
+        chz[k] |= h
+        while fill < len(chunks) and len(chunks[fill]) >= size:
+            fill += 1
     res, pres = run_chunks(elk, chunks, workdir, "p") if chunks else ({}, {})
     # a crashed call is re-run alone (up to 2 more times) so that a load-dependent crash is not blamed on the method; only the
     # first crash of a (row, crash class) is re-run, further ones of the same class are taken as they are
@@ -914,8 +1112,12 @@ def stream_calls(ctx, tab, elk, bad_rows, only_keys=None):
                 what = "%s returned a %s but is declared `never`" % (text, detail)
                 oracle = "runtime class of the result is a member of the declared return type"
             elif r["retset"] != "void" and not member(detail, r["retset"], tab, r["ns"]):
-                key = "calls:return:%s#%s:declared=%s:got=%s" % (decl, r["name"], r["ret"], detail)
+                # keyed by receiver class x classes of the collection arguments x declared / got
+                ak = c.get("argkey") or ""
+                key = "calls:return:%s#%s:%sdeclared=%s:got=%s" % (decl, r["name"], (ak + ":") if ak else "", r["ret"], detail)
                 what = "%s returned a %s but is declared `%s`" % (text, detail, r["ret"])
+                if c.get("rtag"):
+                    what += " [receiver %s; arguments %s]" % (c["rtag"], c.get("argcls"))
                 oracle = "runtime class of the result is a member of the declared return type"
             if what is None and c.get("probe"):
                 pk, pd = pres.get(c["id"], ("lost", ""))
@@ -984,7 +1186,20 @@ RULE_CALLS = (
     "only where they are not a size/shift/exponent). Quick: for every row and count a one-factor plan (every core value of every "
     "parameter at least once, receivers rotating from a seeded offset) plus seeded picks from the whole catalogue, parameterless "
     "rows sampled from the seed if over budget; thorough: the full receiver x value product per row and count up to 300 "
-    "combinations, beyond that one-factor over all values plus seeded combinations. Calls the checker rejects are dropped and "
+    "combinations, beyond that one-factor over all values plus seeded combinations. COLLECTION REPRESENTATIONS: HashMap, HashRecord, "
+    "HashSet, ArrayList and ArrayTuple receivers are additionally taken from a generated catalogue of representation variants = "
+    "backing implementation (value-backed *OfValue for Int / union / bool element or key types; Native*/NativeKey* for String, "
+    "Symbol, Char, Float, Float64, Int8, UInt8, Int64, UInt, Date keys or elements, and for maps both NativeKeyHashMap[K] and the "
+    "fully native NativeHashMap[K, V]; the untyped empty literal) x state (EMPTY, singleton, three elements) x spare capacity "
+    "(`:8`, mutable classes), each built by a local declared with the full generic type (`var m: Std::HashMap[Std::Int, Std::Int] = "
+    "{}`) so that the declared type selects the backing also for the empty state; type-parameter arguments (Val / Key / Value) take "
+    "member and non-member values of the receiver variant's element types. A parameter declared with a collection supertype "
+    "(Tuple[V], Record[K, V], ImmutableSet[V]) gets every variant of EVERY concrete class belonging to it (map+record, record+map, "
+    "tuple+list, list+tuple, set+set ...), `any` parameters of a collection get the core variants of the same and the sibling "
+    "kind; for each such parameter the FULL PRODUCT core receiver variants x core argument variants is executed in the quick tier "
+    "(thorough: all receiver variants x core argument variants, plus every non-core receiver variant once per row and count). "
+    "Two static literals of the same native hash-record type are never put into one program (the compiler crashes on that). "
+    "Calls the checker rejects are dropped and "
     "counted (`rejected`); a crashed program is resumed after the crashing call and the first crash of a kind re-run alone. "
     "Oracles: no Go panic/fatal; runtime class of the result in the declared return type (class equality via type-level ancestors, "
     "nilable, unions, bool; any/type parameters/interfaces/closures accept everything; generics ignored); when the declared return "
@@ -1012,6 +1227,10 @@ def run(ctx):
         "every executable row with several receivers and, per declared parameter type, several values of every member class - through a "
         "local declared with the declared type (so the un-specialised overload is the one reached) and as literals (specialised "
         "overloads) - and additionally calls one parameterless native method of the declared return class on each result. "
+        "Collection receivers and collection-typed arguments are enumerated over class x backing implementation (value-backed / native-"
+        "specialised per element or key type, chosen by a declared generic type) x state (empty, singleton, multi) x spare capacity, and "
+        "a parameter typed with a collection supertype receives every concrete member class in each representation; a return-class "
+        "mismatch is keyed by receiver class x method x argument collection classes x declared/got. "
         "The protocol model is hand-written from vm/thread.go and types/checker/method.go; named arguments and post-rest "
         "parameters are represented only by the slot count.")
     ctx.trusted_base += [
